@@ -102,6 +102,9 @@ ADDENDA = {
     "C11": "Also: every InternKey is built from both the text and the previous unique of its inputs, unconditionally, and compared / hashed by derived impls.",
     "C12": "Also: a schema's definition key follows every type-variable binding its content follows (sibling conditions of Reference::from_type and Annotated::do_from_type); constant folding to Data decides map-vs-list from the list's element type.",
     "C13": "Also: tuple-index suffixes are printed with the function the lexer validates them with; the formatter omits a validator's `else` only when it is exactly what the parser synthesises; element-dropping iterator adaptors in formatter methods are enumerated and reviewed.",
+    "C16": "Also: the seeded run, the shrinker's replays and the final report evaluate the property through one method under one budget (ExBudget::max()); a candidate replaces the counterexample only under `candidate <=/< current` comparisons on length or sequence; recorded and replayed choices use inverse byte orders (one reversal on each side, cursor = number of choices); the iteration counter is decremented once per executed run, unconditionally.",
+    "C08": "Also: a branch shared by several Plutus versions names no single version in its body.",
+    "C18": "Also (shared with C08): a branch shared by several Plutus versions names no single version in its body, so applying a parameter cannot re-label a V1 program as V2.",
     "C15": "Also: the parser's `I <n>` and the printer convert Data big integers through from/to_pallas_bigint, whose -1-n convention is checked on MIR in both directions.",
 }
 for _pid, _t in ADDENDA.items():
